@@ -143,6 +143,65 @@ where
     Ok(())
 }
 
+/// the difference law alone, over (nearly) the whole range of each unit: for the nanosecond unit two
+/// instants may be up to 584 years apart, more than an i64 of nanoseconds
+#[derive(Clone, Debug, Serialize, Deserialize)]
+struct WideCase {
+    u: usize,
+    a: i64,
+    b: i64,
+}
+
+fn wide_case(_t: Tier) -> impl Strategy<Value = WideCase> {
+    // raw values: ns over the whole i64 (minus NaT), coarser units over years ~1..9999
+    let lim = |u: usize| match u {
+        3 => i64::MAX,
+        _ => 250_000_000_000i64 * (1_000_000_000 / NS_PER[u]),
+    };
+    (0usize..4, any::<i64>(), any::<i64>(), 0u8..4).prop_map(move |(u, x, y, mode)| {
+        let l = lim(u);
+        let fold = |v: i64| if l == i64::MAX { v.max(i64::MIN + 1) } else { v % l };
+        let (a, b) = match mode {
+            // opposite ends of the range
+            0 => (l - (x % 1_000_000).abs(), -(l - (y % 1_000_000).abs())),
+            1 => (-(l - (x % 1_000_000).abs()), l - (y % 1_000_000).abs()),
+            _ => (fold(x), fold(y)),
+        };
+        WideCase { u, a, b }
+    })
+}
+
+fn wide_unit<U: TimeUnitTrait>(c: &WideCase, obs: &mut Obs) -> CheckResult
+where
+    DateTime<U>: TryInto<chrono::DateTime<chrono::Utc>> + From<chrono::DateTime<chrono::Utc>>,
+{
+    let (a, b) = (DateTime::<U>::new(c.a), DateTime::<U>::new(c.b));
+    let diff = a - b;
+    let want = dur_from_ns((c.a as i128 - c.b as i128) * NS_PER[c.u] as i128);
+    if diff.is_nat() || diff.months != 0 || diff.inner != want {
+        return fail("difference:wide:model", format!("DateTime<{}>: {} - {} = {:?}, exact difference is {:?}", UNIT_NAME[c.u], c.a, c.b, diff, want));
+    }
+    let rev = b - a;
+    if rev.is_nat() || rev.inner != -want {
+        return fail("difference:wide:antisymmetric", format!("DateTime<{}>: {} - {} = {:?}, expected the negated difference", UNIT_NAME[c.u], c.b, c.a, rev));
+    }
+    if (b + diff).0 != c.a {
+        return fail("difference:wide:inverse", format!("DateTime<{}>: (a - b) + b = {} for a = {}, b = {}", UNIT_NAME[c.u], (b + diff).0, c.a, c.b));
+    }
+    if (a - diff).0 != c.b {
+        return fail("difference:wide:inverse", format!("DateTime<{}>: a - (a - b) = {} for a = {}, b = {}", UNIT_NAME[c.u], (a - diff).0, c.a, c.b));
+    }
+    let beyond = (c.a as i128 - c.b as i128).abs() * NS_PER[c.u] as i128 > i64::MAX as i128;
+    obs.set_nontrivial(beyond || (c.a < 0) != (c.b < 0));
+    obs.class_if(beyond, "difference_beyond_i64_ns");
+    obs.class(UNIT_NAME[c.u]);
+    Ok(())
+}
+
+fn check_wide(c: &WideCase, obs: &mut Obs) -> CheckResult {
+    by_unit!(c.u, wide_unit, c, obs)
+}
+
 fn check_inv(c: &InvCase, obs: &mut Obs) -> CheckResult {
     by_unit!(c.u, inv_unit, c, obs)
 }
@@ -440,6 +499,7 @@ fn main() {
     )
     .assume("operands stay within 1700..2200 so that every unit and chrono can represent them; durations are multiples of the unit's resolution (DESIGN 5.8)");
     p.add(sub("datetime_duration_inverse", 30000, 1000000, inv_case, check_inv));
+    p.add(sub("datetime_difference_wide_range", 20000, 600000, wide_case, check_wide));
     p.add(sub("timedelta_group_laws", 20000, 600000, group_case, check_group));
     p.add(sub("calendar_months", 30000, 1000000, month_case, check_month));
     p.add(sub("time_of_day", 20000, 600000, tod_case, check_tod));
